@@ -103,6 +103,55 @@ pub struct Inst<T: Sc> {
     pub poly: bool,
 }
 
+/// C01 / C02 / C10: parameter vectors that compare equal but are different bit patterns (+0.0, -0.0)
+/// are different parameters for a model that looks at the sign.  Applied one after the other, every
+/// update has to be carried out: coefficients are the optimum for the vector in effect and the state
+/// is that of a fresh problem.
+fn signed_zero_probe<T: Sc>(rep: &mut Report) {
+    let n = 5;
+    // y = 2 (i+1) + 1 : optimum c = (2 sign(a), 1), residual 0
+    let y1 = DMatrix::from_fn(n, 1, |i, _| T::of64(2.0 * (i as f64 + 1.0) + 1.0));
+    let y2 = DMatrix::from_fn(n, 2, |i, s| T::of64(if s == 0 { 2.0 * (i as f64 + 1.0) + 1.0 } else { 3.0 - (i as f64 + 1.0) }));
+    for (mrhs, par) in [(false, false), (true, false), (false, true), (true, true)] {
+        let y = if mrhs { &y2 } else { &y1 };
+        let seq = [0.0f64, -0.0, 0.0, -0.0, -0.0, 1.0, -0.0, 0.0];
+        let Ok(mut prob) = build_problem(SignModel::<T>::new(n, T::of64(0.0)), mrhs, par, y, None, None) else {
+            rep.tool_error("signed zero probe: cannot build".into());
+            return;
+        };
+        for (step, &a) in seq.iter().enumerate() {
+            let flav = format!("signed zero probe {} mrhs={} par={} step={} a={:?}", T::NAME, mrhs, par, step, a);
+            let det = |what: &str| json!({"flavour": flav, "what": what});
+            prob.set_params(&[T::of64(a)]);
+            let sign = if a.is_sign_negative() { -1.0 } else { 1.0 };
+            rep.check("C10", prob.params().len() == 1 && prob.params()[0].bits() == T::of64(a).bits(), 0.0, || det("the problem does not report the parameters that were applied, bit for bit"));
+            let o = observe(prob.as_ref());
+            match (&o.c, &o.r) {
+                (Some(c), Some(r)) => {
+                    let e0 = [2.0 * sign, 1.0];
+                    let e1 = [-1.0 * sign, 3.0];
+                    let mut worst = 0.0f64;
+                    for j in 0..2 {
+                        worst = worst.max((c[j].to64() - e0[j]).abs());
+                        if mrhs {
+                            worst = worst.max((c[2 + j].to64() - e1[j]).abs());
+                        }
+                    }
+                    rep.check("C01", worst <= T::tol(), worst, || det("coefficients are not the optimum for the parameters in effect (sign of a zero parameter)"));
+                    let rmax = r.iter().fold(0.0f64, |m, v| m.max(v.to64().abs()));
+                    rep.check("C02", rmax <= T::tol() * 20.0, rmax, || det("residuals do not belong to the parameters in effect (sign of a zero parameter)"));
+                }
+                _ => rep.violation("C01", det("coefficients absent although the model evaluates")),
+            }
+            if let Ok(fresh) = build_problem(SignModel::<T>::new(n, T::of64(a)), mrhs, par, y, None, None) {
+                let of = observe(fresh.as_ref());
+                rep.check("C10", obs_bits_eq(&o, &of), 0.0, || det("state after a history of equal-comparing parameter vectors differs from a fresh problem"));
+            }
+        }
+        rep.count("signed_zero_probes", 1);
+    }
+}
+
 /// health of the decomposition of W*Phi at every tabulated parameter vector of a (twin) table
 fn health_of_table<T: Sc>(table: &Table<T>, w: Option<&[T]>) -> Vec<bool> {
     table
@@ -796,15 +845,28 @@ fn run_inst<T: Sc>(line: &Line, idx: usize, pools: &Pools, opts: &Opts, rep: &mu
         let ev = EpsVar::User;
         let flav = tag(idx, &fam, T::NAME, Kind::Table, true, false, ev);
         let multi_par = idx % 2 == 1;
-        let flav = format!("{} multi_par={}", flav, multi_par);
-        if let Ok(mut multi) = inst.make(Kind::Table, &a_first, true, multi_par, &inst.y, wref, ev) {
+        // on some instances ONE observation column is not finite (all NaN, or one +inf entry): whatever
+        // that column yields, the other columns must not notice
+        let bad: Option<&str> = match idx % 10 {
+            2 => Some("column 0 all NaN"),
+            7 => Some("one +inf in the last column"),
+            _ => None,
+        };
+        let flav = format!("{} multi_par={}{}", flav, multi_par, bad.map(|b| format!(" ({b})")).unwrap_or_default());
+        let ymat: DMatrix<T> = match idx % 10 {
+            2 => DMatrix::from_fn(inst.n, inst.s, |i, s| if s == 0 { T::of64(f64::NAN) } else { inst.y[(i, s)] }),
+            7 => DMatrix::from_fn(inst.n, inst.s, |i, s| if s == inst.s - 1 && i == 0 { T::of64(f64::INFINITY) } else { inst.y[(i, s)] }),
+            _ => inst.y.clone(),
+        };
+        let inst_y = &ymat;
+        if let Ok(mut multi) = inst.make(Kind::Table, &a_first, true, multi_par, inst_y, wref, ev) {
             let mut singles = Vec::new();
             for s in 0..inst.s {
-                let ycol = DMatrix::from_fn(inst.n, 1, |i, _| inst.y[(i, s)]);
+                let ycol = DMatrix::from_fn(inst.n, 1, |i, _| inst_y[(i, s)]);
                 singles.push(inst.make(Kind::Table, &a_first, false, false, &ycol, wref, ev));
             }
             // permuted observation columns (reversed)
-            let yperm = DMatrix::from_fn(inst.n, inst.s, |i, s| inst.y[(i, inst.s - 1 - s)]);
+            let yperm = DMatrix::from_fn(inst.n, inst.s, |i, s| inst_y[(i, inst.s - 1 - s)]);
             let mut perm = inst.make(Kind::Table, &a_first, true, multi_par, &yperm, wref, ev).ok();
             for &qi in order.iter().take(npts) {
                 let a: Vec<T> = inst.line.pts[qi].a.iter().map(|&v| T::of64(v as f64)).collect();
@@ -1106,6 +1168,8 @@ pub fn run(path: &str, opts: &Opts) -> Report {
         })
         .collect();
     let mut total = Report::new();
+    signed_zero_probe::<f64>(&mut total);
+    signed_zero_probe::<f32>(&mut total);
     total.count("export_lines", parsed.len() as u64);
     for r in reports {
         total.merge(r);
